@@ -28,6 +28,8 @@ enum Mutation {
     Random,
     OtherServer,
     Empty,
+    /// computed by the presenter from the public token construction with a degenerate secret
+    Guessed(u8),
 }
 
 #[derive(Clone, Debug)]
@@ -99,13 +101,14 @@ fn plan(rng: &mut Rng, g: u64, holders: usize) -> Vec<Holder> {
                             5 | 6 => Who::SameIpOtherPort,
                             _ => Who::OtherIp(close_ip(ip, rng)),
                         };
-                        let mutation = match rng.usize(14) {
+                        let mutation = match rng.usize(15) {
                             0 => Mutation::BitFlip(rng.usize(32)),
                             1 => Mutation::Truncate,
                             2 => Mutation::Extend,
                             3 => Mutation::Random,
                             4 => Mutation::OtherServer,
                             5 => Mutation::Empty,
+                            6 => Mutation::Guessed(rng.usize(GUESS_KINDS as usize) as u8),
                             _ => Mutation::None,
                         };
                         Present { age: ages_grid(rng), who, mutation, kind: rng.usize(4) }
@@ -231,6 +234,12 @@ pub fn scenario(r: &mut Report, seed: u64, g: u64, holders: usize, case_id: u64,
                     }
                     Mutation::OtherServer => token = foreign.clone().unwrap_or_default(),
                     Mutation::Empty => token.clear(),
+                    Mutation::Guessed(k) => {
+                        token = guessed_token(addr, *k);
+                        if token == tok {
+                            token[0] ^= 1;
+                        }
+                    }
                 }
                 let id: [u8; 20] = rng.array();
                 let mut c = if addr == clients[i].addr { None } else { Some(fx.client(addr, id)) };
